@@ -68,7 +68,16 @@ def cargo_build(package, profile):
     return os.path.join(TARGET, profile, package), time.time() - t0
 
 
+# A change under test may loop while allocating (a token loop that never advances): the simulators
+# run with a capped address space, so that this ends in an allocation-failure abort (handled like
+# any other crash of the code under test) instead of exhausting the machine.  cargo / Miri are not
+# capped.
+MEM_CAP = 32 << 30
+
+
 def run(cmd, timeout=None, env=None, cwd=None):
+    if os.path.dirname(cmd[0]).startswith(TARGET) and os.path.exists("/usr/bin/prlimit"):
+        cmd = ["/usr/bin/prlimit", "--as=%d" % MEM_CAP] + list(cmd)
     p = subprocess.run(cmd, cwd=cwd or VERIF, env=env or ENV, stdout=subprocess.PIPE, stderr=subprocess.PIPE, text=True, timeout=timeout)
     return p.returncode, p.stdout, p.stderr
 
